@@ -1,4 +1,5 @@
 import AranyaV.Proofs.Afc
+import AranyaV.Gen.PanicSitesAfc
 /-!
 # C39 — AFC messages are authenticated and opening never panics
 
@@ -237,6 +238,11 @@ theorem seal_no_panic (w : World) (c : Nat) (dst pt oracle : List UInt8) :
     cases doSeal w c pt oracle with
     | error e => simp
     | ok x => obtain ⟨s, w'⟩ := x; simp
+
+/-- the panic-site inventory regenerated from the source covers the seven transliterated functions;
+its only arithmetic sites are the two of `seal_in_place`, which `sealIP` models with `hostPanic`
+outcomes that `seal_no_panic` shows unreachable -/
+example : panicSites.length = 7 := rfl
 
 /-! ## non-vacuity -/
 
